@@ -6,7 +6,7 @@ import z3
 from vp import loader, symnp as S, elem as E
 from vp.elem import CTX
 from vp.run import new_result
-from harness.common import explore, is_identity
+from harness.common import explore, is_identity, guarded
 from harness import statlib as L
 from harness.C01 import equal_elem
 
@@ -81,7 +81,11 @@ def job_moving(job, res):
             for w in range(1, shape[ax] + 1):
                 win = windows(x.c, ax, w)
 
-                def chk(name, out, f, squared=False):
+                def chk(name, call, f, squared=False):
+                    wit_ = lambda m, name=name: dict(kind='moving', fn=name, shape=list(shape), w=w, axis=axis, x=L.model_values(m, x), key=dict(kind='moving', fn=name))  # noqa: E731
+                    done, out = guarded(pr, f'{name}(data{shape}, window_size={w}, axis={axis})', wit_, call)
+                    if not done:
+                        return
                     got = S._w(out)
                     ok = tuple(got.shape) == tuple(win.shape)
                     if ok:
@@ -94,9 +98,9 @@ def job_moving(job, res):
 
                 def mom(v, k):
                     return z3.Sum([t ** k if k > 1 else t for t in v]) / len(v)
-                chk('moving_sum', mov.moving_sum(x, w, axis), lambda g, v: equal_elem(g, z3.Sum(v)))
-                chk('moving_mean', mov.moving_mean(x, w, axis), lambda g, v: equal_elem(g, mom(v, 1)))
-                chk('moving_var', mov.moving_var(x, w, axis), lambda g, v: equal_elem(g, mom(v, 2) - mom(v, 1) * mom(v, 1)))
+                chk('moving_sum', lambda: mov.moving_sum(x, w, axis), lambda g, v: equal_elem(g, z3.Sum(v)))
+                chk('moving_mean', lambda: mov.moving_mean(x, w, axis), lambda g, v: equal_elem(g, mom(v, 1)))
+                chk('moving_var', lambda: mov.moving_var(x, w, axis), lambda g, v: equal_elem(g, mom(v, 2) - mom(v, 1) * mom(v, 1)))
                 if w >= 2 and len(shape) <= 2:
                     mark = len(CTX.side)
 
@@ -104,7 +108,7 @@ def job_moving(job, res):
                         var = mom(v, 2) - mom(v, 1) * mom(v, 1)
                         rad = next((r for sy, r in CTX.sqrts if E.is_sym(g) and g.eq(sy)), None)
                         return rad is not None and is_identity(rad == var)
-                    chk('moving_std', mov.moving_std(x, w, axis), std_ok)
+                    chk('moving_std', lambda: mov.moving_std(x, w, axis), std_ok)
 
                     def ratio_ok(num_o, vpow):
                         def f(g, v):
@@ -121,14 +125,14 @@ def job_moving(job, res):
                             return den2 is not None and is_identity(num * num * var ** vpow == no * no * den2) and c_ is not None
                         return f
                     m1 = lambda v: mom(v, 1)  # noqa: E731
-                    chk('moving_skew', mov.moving_skew(x, w, axis), ratio_ok(lambda v: mom(v, 3) - 3 * m1(v) * mom(v, 2) + 2 * m1(v) ** 3, 3))
+                    chk('moving_skew', lambda: mov.moving_skew(x, w, axis), ratio_ok(lambda v: mom(v, 3) - 3 * m1(v) * mom(v, 2) + 2 * m1(v) ** 3, 3))
 
                     def kurt_ok(g, v):
                         var = mom(v, 2) - m1(v) * m1(v)
                         num, den = L.ratform(E.R(g))
                         on, od = L.ratform((mom(v, 4) - 4 * m1(v) * mom(v, 3) + 6 * m1(v) ** 2 * mom(v, 2) - 3 * m1(v) ** 4) / (var * var) - 3)
                         return is_identity(num * od == on * den)
-                    chk('moving_kurtosis', mov.moving_kurtosis(x, w, axis), kurt_ok)
+                    chk('moving_kurtosis', lambda: mov.moving_kurtosis(x, w, axis), kurt_ok)
                     del CTX.side[mark:]
         xb = S.sym_bv('b', (4,), 'uint8')
         out = mov.moving_sum(xb, 2)
@@ -438,7 +442,10 @@ def replay(w):
             return dict(reproduced=not np.allclose(out, exp), detail=f'moving_sum(uint8 {x.tolist()}, 2) = {np.array(out).tolist()}')
         tries = ([L.to_numpy(w['x'])] if w.get('x') else []) + [np.array([rnd.uniform(-4, 4) for _ in range(int(np.prod(shape)))]).reshape(shape) for _ in range(4)]
         for X in tries:
-            out = np.array(getattr(sp, fn)(X, win, axis))
+            try:
+                out = np.array(getattr(sp, fn)(X, win, axis))
+            except Exception as e_:
+                return dict(reproduced=True, detail=f'{fn}(data{shape}, window_size={win}, axis={axis}) raised {type(e_).__name__}: {e_}')
             sw = np.lib.stride_tricks.sliding_window_view(X, win, axis=axis % X.ndim)
             m1 = sw.mean(-1)
             var = (sw ** 2).mean(-1) - m1 ** 2
